@@ -113,7 +113,7 @@ CONFIGS = _configs()
 
 
 def gen_cases(tier, verif_seed):
-    rounds = {'quick': 16, 'thorough': 240}[tier]
+    rounds = {'quick': 48, 'thorough': 480}[tier]
     per_batch = {'quick': 140, 'thorough': 400}[tier]
     i = 0
     for rnd in range(rounds):
@@ -134,7 +134,10 @@ def gen_cases(tier, verif_seed):
 
 def _target(uni, in_prot, method, ws):
     args = uni.gen_args(ws, method)
-    req = encode_request(uni, in_prot, method, args)
+    # absent members travel as xsi:nil="true" elements in half of the XML
+    # traffic
+    req = encode_request(uni, in_prot, method, args,
+                         xsi_nil=ws.random() < .5)
     if in_prot in SOAP_FAMILY and ws.random() < .5:
         # valid traffic often carries a (here: empty) SOAP Header
         marker = b'Body>'
@@ -258,7 +261,9 @@ def _draw_ops(case, data, rng):
                                                            .decode('ascii')])
         elif kind == 'splice':
             a, b = rng.choice(spans)
-            ops.append(['splice', a, b, rng.randrange(len(SPLICE_TOKENS))])
+            # (token 0 is the empty string: the span is simply lost)
+            ops.append(['splice', a, b, 0 if rng.random() < .2 else
+                        rng.randrange(len(SPLICE_TOKENS))])
         elif kind == 'lose_block':
             # a lost block whose boundaries coincide with markup boundaries
             # (one whole element / one whole member)
